@@ -98,10 +98,10 @@ def run(ctx):
               "than k), k in 1..d-1 and beyond, three embedding types, n_components 1..d: rows are generalised eigenvectors of "
               "the PAIRWISE-defined local scatter matrices with the leading eigenvalues, in decreasing order, scaled per "
               "embedding_type (independent O(n^2) evaluation).")
-  ctx.trusted = ["translator tools/translate_rca.py + tools/pynum.py / Base/NPNum.v (reduced branch of RCA.fit; _chunk_mean_centering and the np.cov(bias=1) statement, whose idioms nn_ne_zs / nn_mask / nn_isub_rows_where / nn_mean_rows / cov 0 are compared with the code's own functions on exact rationals per run), text pins tools/translate_pins.py (Covariance / RCA / LFDA)", "Coq 8.16.1 kernel + vm_compute", "certificate checkers in Model/CaseDefs.v (exact rationals)",
+  ctx.trusted = ["translator tools/translate_rca.py + tools/pynum.py / Base/NPNum.v (reduced branch of RCA.fit; tools/translate_lfda.py: the local-scatter statement of LFDA.fit; _chunk_mean_centering and the np.cov(bias=1) statement, whose idioms nn_ne_zs / nn_mask / nn_isub_rows_where / nn_mean_rows / cov 0 are compared with the code's own functions on exact rationals per run), text pins tools/translate_pins.py (Covariance / RCA / LFDA)", "Coq 8.16.1 kernel + vm_compute", "certificate checkers in Model/CaseDefs.v (exact rationals)",
                  "oracles: scipy pinvh / eigh / eigsh, numpy cov", "LFDA reference is an independent NumPy evaluation (exp), not a Coq model",
                  "completeness of the spectrum (leading eigenvectors) is certified per instance, not proved"]
-  ok = ctx.build_property(gen_needed=['Src_rca'])
+  ok = ctx.build_property(gen_needed=['Src_rca', 'Src_lfda'])
   terms, recs = [], []
   n = 60 if thorough else 12
   for i in range(n):
